@@ -108,10 +108,42 @@ def variants(stmt, n, base, k):
             yield tuple(tuple(o) for o in ops)
 
 
+def variants_form_x_dec(stmt, n, base):
+    """One operand (each position in turn) takes every form x decorator combination that departs from the base
+    in BOTH dimensions (the single-dimension departures are the k=1 variants); the other operands stay base."""
+    forms = FORMS if stmt == "expr" else BRACKET_FORMS
+    for i in range(n):
+        for f in forms:
+            for d in DECS:
+                if f == base[0] or d == base[1]:
+                    continue
+                ops = [tuple(base)] * n
+                ops[i] = (f, d, base[2], base[3])
+                yield tuple(ops)
+
+
+def all_subchains(t):
+    """True when the chain's top boolean operator (after Python precedence) has ONLY sub-chains as operands,
+    e.g. `a && b || c && d`, `(a || b) && (c || d)`: no command is a direct operand of the outermost operator."""
+    if isinstance(t, int):
+        return False
+    groups = [[t[1][0]]]
+    for it, o in zip(t[1][1:], t[2]):
+        if o in ref.OR_OPS:
+            groups.append([it])
+        else:
+            groups[-1].append(it)
+    if len(groups) > 1:
+        return all(len(g) > 1 or not isinstance(g[0], int) for g in groups)
+    return all(not isinstance(it, int) for it in groups[0])
+
+
 def blocks(thorough):
     """The enumerated space as a list of blocks (the product inside a block is complete).  `uniform` restricts
-    the shapes to those spelling all their operators symbolically or all as words."""
-    d = dict(nmin=1, kmin=0, seps=("nl",), codes=(0, 1), threaded=False, uniform=False)
+    the shapes to those spelling all their operators symbolically or all as words; `only` = "all_subchains"
+    keeps the trees whose outermost operator has only sub-chains as operands; `variant` = "form_x_dec" replaces
+    the <=k deviations by the form x decorator cross product on one operand."""
+    d = dict(nmin=1, kmin=0, k=0, seps=("nl",), codes=(0, 1), threaded=False, uniform=False, only=None, variant=None)
     if not thorough:
         spec = [
             dict(id="expr-n2", stmt="expr", nmax=2, k=1, bases=("name", "words"), seps=(";", "nl")),
@@ -121,6 +153,12 @@ def blocks(thorough):
             dict(id="assign-n3", stmt="assign", nmin=3, nmax=3, k=0, bases=("words",)),
             dict(id="if", stmt="if", nmax=2, k=1, bases=("words",)),
             dict(id="if-n3", stmt="if", nmin=3, nmax=3, k=0, bases=("words",)),
+            # the smallest chains whose outermost operator has no command as a direct operand (2+2 operands)
+            dict(id="expr-n4-subchains-name", stmt="expr", nmin=4, nmax=4, bases=("name",), seps=(";", "nl"), only="all_subchains"),
+            dict(id="expr-n4-subchains-words", stmt="expr", nmin=4, nmax=4, bases=("words",), only="all_subchains"),
+            # decorator x form on one operand (it is the deciding one for half of the code assignments)
+            dict(id="expr-form-x-dec", stmt="expr", nmax=2, bases=("name", "words"), seps=(";", "nl"), variant="form_x_dec"),
+            dict(id="assign-form-x-dec", stmt="assign", nmax=2, bases=("name", "words"), variant="form_x_dec"),
         ]
     else:
         spec = [
@@ -135,6 +173,9 @@ def blocks(thorough):
             dict(id="expr-n4-k0", stmt="expr", nmin=4, nmax=4, k=0, bases=("name", "words")),
             dict(id="expr-n4-k1", stmt="expr", nmin=4, nmax=4, k=1, kmin=1, bases=("words",), uniform=True),
             dict(id="expr-threaded", stmt="expr", nmax=3, k=1, bases=("name", "words"), threaded=True, uniform=True),
+            dict(id="expr-n4-subchains-semicolon", stmt="expr", nmin=4, nmax=4, bases=("name", "words"), seps=(";",), only="all_subchains"),
+            dict(id="if-n4-subchains", stmt="if", nmin=4, nmax=4, bases=("name", "words"), only="all_subchains"),
+            dict(id="assign-n4-subchains", stmt="assign", nmin=4, nmax=4, bases=("name", "words"), only="all_subchains"),
         ]
     return [dict(d, **b) for b in spec]
 
@@ -157,10 +198,13 @@ def block_items(bi, b):
     for n in range(b["nmin"], b["nmax"] + 1):
         shp = shapes(n)
         sis = [si for si in range(len(shp)) if not b["uniform"] or _uniform(shp[si])]
+        if b["only"] == "all_subchains":
+            sis = [si for si in sis if all_subchains(shp[si])]
         for base_text in b["bases"]:
             base = _base_op(b["stmt"], base_text)
-            for ops in variants(b["stmt"], n, base, b["k"]):
-                if _ndev(ops, base) < b["kmin"]:
+            vs = variants_form_x_dec(b["stmt"], n, base) if b["variant"] == "form_x_dec" else variants(b["stmt"], n, base, b["k"])
+            for ops in vs:
+                if b["variant"] is None and _ndev(ops, base) < b["kmin"]:
                     continue
                 for si in sis:
                     for sep in b["seps"]:
